@@ -213,7 +213,7 @@ Plan generate_plan(const std::string& prop, unsigned long long vseed, unsigned l
         if (r.chance(350)) add_query_ops(r, p.ops, hc.nmgrs, false);
         if (inc) {   // aim a few in-place ops at the incomplete manager too
             int im = (int)p.mgrs.size() - 1;
-            for (auto& o : p.ops) if ((o.kind == OP_NORMALIZE || o.kind == OP_MAKEOWNER || o.kind == OP_FREE) && r.chance(300)) o.mgr = im;
+            for (auto& o : p.ops) if ((o.kind == OP_NORMALIZE || o.kind == OP_MAKEOWNER || o.kind == OP_FREE || o.kind == OP_FREEQL) && r.chance(300)) o.mgr = im;
         }
         if (r.chance(300)) {   // one run in three also sweeps the allocation failures of one call (ledger oracles only)
             std::vector<int> elig;
@@ -230,6 +230,10 @@ Plan generate_plan(const std::string& prop, unsigned long long vseed, unsigned l
             int n = r.range(1, 7); for (int i = 0; i < n; i++) t += r.pick(parts);
             if (r.chance(800)) t += "]";
             if (r.chance(300)) t += ":80/x";
+            o.text = t;
+        } else if (r.chance(50)) {   // dotted-decimal soup (also fed to the public IPv4 routine at every split point)
+            static const std::vector<std::string> parts = {"0", "1", "9", "10", "25", "99", "100", "199", "200", "249", "250", "255", "256", "260", "300", "999", "00", "01", "1000", ".", ".", ".", "..", "a", ":", "/"};
+            std::string t; int n = r.range(1, 9); for (int i = 0; i < n; i++) t += r.pick(parts);
             o.text = t;
         } else o.text = gen::uri_text(r, tc);
         p.ops.push_back(o);
@@ -308,6 +312,18 @@ Plan generate_plan(const std::string& prop, unsigned long long vseed, unsigned l
             else { o.kind = OP_REMOVEBASE; o.a = 9 + i; o.b = x; o.c = other; o.opt = r.range(0, 1); }
             p.ops.push_back(o);
         }
+        // "no operation ever writes into caller-supplied input text": the string and query operations run under the same monitor
+        // (placed in front of the history so that they do not multiply the loss positions)
+        std::vector<Op> hist; hist.swap(p.ops);
+        if (r.chance(250)) add_query_ops(r, p.ops, 1, r.chance(500));
+        if (r.chance(250)) {
+            Op o; Op tmp; gen::query_items(r, tmp, 1, 12);
+            if (r.chance(600)) { o.kind = OP_ESCAPE; o.text = tmp.keys[0] + (r.chance(300) ? "%41%0d%0A+%zz%" : ""); o.entry = r.range(0, 3); o.opt = r.range(0, 63) & ~3; }
+            else { o.kind = OP_FILENAME; o.opt = r.range(0, 1); o.text = r.pick(std::vector<std::string>{"/bin/bash", "./configure", "C:\\Documents and Settings\\x", "\\\\Server01\\Letter.txt", "abc def", "E:/x y/%41", ""}) + tmp.keys[0]; }
+            p.ops.push_back(o);
+        }
+        p.target += (int)p.ops.size();
+        p.ops.insert(p.ops.end(), hist.begin(), hist.end());
         p.extra = J::obj(); p.extra.set("enumerate_loss", 1);
         if (r.chance(300)) {   // also sweep the allocation failures of one call that takes read-only arguments (or any allocating call)
             std::vector<int> elig, pref;
